@@ -6,6 +6,7 @@ import (
 	"sort"
 
 	"github.com/go-openapi/analysis"
+	"github.com/go-openapi/spec"
 )
 
 // Hooks for the verification harness in /verif (built only with -tags verif; add-only).
@@ -25,4 +26,9 @@ func VerifGatherOperations(doc *analysis.Spec) []VerifOpRef {
 	}
 	sort.Slice(out, func(i, j int) bool { return out[i].Name < out[j].Name })
 	return out
+}
+
+// VerifParamMappings exposes paramMappings: the go names per location and the private timeout field name.
+func VerifParamMappings(params map[string]spec.Parameter) (map[string]map[string]string, string) {
+	return paramMappings(params)
 }
